@@ -74,7 +74,7 @@ def range_list(draw):
     n = draw(st.integers(0, 3))
     out = []
     for _ in range(n):
-        kind = draw(st.sampled_from(["labels", "labels", "inside", "outside", "reversed"]))
+        kind = draw(st.sampled_from(["labels", "labels", "inside", "outside", "reversed", "open_ended"]))
         out.append({"kind": kind, "i": draw(st.integers(0, 1000)), "j": draw(st.integers(0, 1000)),
                     "u": draw(st.floats(0, 1, allow_nan=False)), "v": draw(st.floats(0, 1, allow_nan=False))})
     return out
@@ -94,6 +94,10 @@ def resolve_ranges(ranges, freqs):
             a = lo_b + r["u"] * (hi_b - lo_b)
             b = lo_b + r["v"] * (hi_b - lo_b)
             out.append((min(a, b), max(a, b)))
+        elif r["kind"] == "open_ended":
+            # "everything above / below f": one limit is infinite (a closed range all the same)
+            a = float(f[r["i"] % n]) if r["j"] % 2 else lo_b + r["u"] * (hi_b - lo_b)
+            out.append((a, float("inf")) if r["i"] % 3 else (float("-inf"), a))
         elif r["kind"] == "outside":
             out.append((hi_b + 1 + r["u"], hi_b + 5 + r["v"]) if r["i"] % 2 else (lo_b - 5 - r["u"], lo_b - 1 - r["v"] * 0.5))
         else:
